@@ -541,7 +541,7 @@ public:
     {
         clear();
 
-        insert(theCount, theData);
+        insert(begin(), theCount, theData);
     }
 
     size_type
